@@ -355,7 +355,7 @@ class Scheduler:
             for t in self.threads:
                 if not t.done:
                     t.baton.release()
-                t.thread.join(20)
+                t.thread.join(120)
                 if t.thread.is_alive():
                     raise RuntimeError("sim thread did not unwind")
             return self.failure
